@@ -41,10 +41,10 @@ def extract(ck):
                "def sliceLo (Nt : Int) : Int := %s\n"
                "def sliceHi (Nt : Int) : Int := %s\n"
                "end QV.Gen.C11\n" % (L(ops, S), "true" if has_len else "false", lo, hi))
+        ck.gen_facts("C11", True)
         return True
     except (X.ExtractError, Exception) as e:
-        ck.tie_fail("extraction of one_transition_spectrum failed: %r" % (e,))
-        return False
+        return bool(ck.tie_fallback("C11", "extraction of one_transition_spectrum failed: %r" % (e,), default=False))
 
 
 def run(ck):
@@ -117,6 +117,8 @@ def run(ck):
 
     for h in range(ck.n(6, 40)):
         nmol = rng.choice([1, 2, 2, 3, 4]) if h else 2
+        if h in (1, 2):
+            nmol = 2 + h          # every run has a coupled trimer and tetramer: excitons delocalised over unequal sites
         energies = [12000.0 + rng.randint(-250, 250) for _ in range(nmol)]
         dips = [[rng.randint(-8, 8) / 4.0 for _ in range(3)] for _ in range(nmol)]
         for d in dips:
@@ -124,12 +126,14 @@ def run(ck):
                 d[0] = 1.0
         poss = [[10.0 * k + rng.randint(0, 4), rng.randint(-4, 4) * 1.0, rng.randint(-4, 4) * 1.0] for k in range(nmol)]
         couplings = [[0.0] * nmol for _ in range(nmol)]
-        zero_c = rng.random() < 0.25
+        zero_c = rng.random() < 0.25 and h not in (1, 2)
         for i in range(nmol):
             for j in range(i + 1, nmol):
                 couplings[i][j] = couplings[j][i] = 0.0 if zero_c else rng.choice([40.0, 100.0, -150.0, 250.0])
         reorgs = [rng.choice([20.0, 30.0, 50.0]) for _ in range(nmol)]
         cortimes = [rng.choice([60.0, 100.0]) for _ in range(nmol)]
+        if h in (1, 2):
+            reorgs = [[20.0, 50.0, 30.0, 80.0][k] for k in range(nmol)]      # unequal baths
         inp = {"sites": nmol, "energies": energies, "dipoles": dips, "couplings": couplings, "reorg": reorgs, "cortime": cortimes}
         try:
             sysm = make(nmol, energies, dips, poss, couplings, reorgs, cortimes)
